@@ -28,6 +28,7 @@ type vfC05Step struct {
 	Raw    []byte
 	Proto  string
 	Client int
+	Inline bool // wire run only: enter as the batch UDP reader does (inline pass, then worker replay on a handoff)
 	Echo   bool // send the cookie option of the last reply this client got (client + server cookie), as a real client does
 }
 
@@ -58,7 +59,17 @@ func vfC05Run(t *testing.T, dir string, p vfC05Params, mkUp func() *vfUp, steps 
 				q.Options = append(opts, vfgen.OptionSpec{Kind: "cookie", Data: lastCookie[st.Client]})
 				raw = q.Pack()
 			}
-			r := w.Ask(raw, st.Proto, vfgen.ClientAddrs[st.Client], 4000+st.Client, wire)
+			var r vfReply
+			if wire && st.Inline && st.Proto == "udp" {
+				var replayed bool
+				r, replayed = w.AskInline(raw, vfgen.ClientAddrs[st.Client], 4000+st.Client)
+				kinds["inline"]++
+				if replayed {
+					kinds["inline_replayed"]++
+				}
+			} else {
+				r = w.Ask(raw, st.Proto, vfgen.ClientAddrs[st.Client], 4000+st.Client, wire)
+			}
 			synctest.Wait() // a queued background refresh runs to completion before the side effects are read
 			if r.Msg != nil {
 				if opt := r.Msg.IsEdns0(); opt != nil {
@@ -117,6 +128,7 @@ func TestVerifC05Twin(t *testing.T) {
 			return u
 		}
 		n := rapid.IntRange(2, 14).Draw(rt, "nsteps")
+		inlineCase := rapid.Bool().Draw(rt, "inlinecase")
 		var steps []vfC05Step
 		var classes []string
 		type hotQ struct {
@@ -157,7 +169,7 @@ func TestVerifC05Twin(t *testing.T) {
 				}
 			}
 			steps = append(steps, vfC05Step{Q: q, Raw: q.Pack(), Proto: rapid.SampledFrom([]string{"udp", "udp", "tcp"}).Draw(rt, "proto"), Client: rapid.IntRange(0, len(vfgen.ClientAddrs)-1).Draw(rt, "client"),
-				Echo: p.Cookie && rapid.IntRange(0, 2).Draw(rt, "echo") == 0})
+				Echo: p.Cookie && rapid.IntRange(0, 2).Draw(rt, "echo") == 0, Inline: inlineCase && rapid.IntRange(0, 3).Draw(rt, "inline") > 0})
 			if len(q.Edits) > 0 {
 				classes = append(classes, "edited-packet")
 			}
@@ -174,6 +186,21 @@ func TestVerifC05Twin(t *testing.T) {
 			at := rapid.IntRange(0, len(steps)).Draw(rt, "rot.at")
 			steps = append(steps[:at], append(rot, steps[at:]...)...)
 			classes = append(classes, "cookie-rotation-across-transports")
+		}
+		if p.EntryRate > 0 && rapid.IntRange(0, 2).Draw(rt, "bigburst") == 0 {
+			// a burst on one cached question whose answer does not fit the client's datagram: each packet costs the
+			// entry's limiter exactly one token whichever way it came in, so both ingresses run dry at the same packet
+			edns := rapid.Bool().Draw(rt, "bb.edns")
+			size := uint16(rapid.SampledFrom([]int{512, 700, 1232}).Draw(rt, "bb.size"))
+			k := rapid.IntRange(3, 6).Draw(rt, "bb.n")
+			at := rapid.IntRange(0, len(steps)).Draw(rt, "bb.at")
+			var burst []vfC05Step
+			for i := 0; i < k; i++ {
+				q := &vfgen.QuerySpec{ID: uint16(800 + i), Name: "big.example.org.", Qtype: dns.TypeTXT, Qclass: dns.ClassINET, RD: true, EDNS: edns, UDPSize: size}
+				burst = append(burst, vfC05Step{Q: q, Raw: q.Pack(), Proto: "udp", Client: rapid.IntRange(0, len(vfgen.ClientAddrs)-1).Draw(rt, "bb.client"), Inline: rapid.IntRange(0, 3).Draw(rt, "bb.inline") > 0})
+			}
+			steps = append(steps[:at], append(burst, steps[at:]...)...)
+			classes = append(classes, "oversized-hit-burst-under-entry-limit")
 		}
 		tw, served, kinds := vfC05Run(t, dir, p, mkUp, steps, true)
 		tm, _, _ := vfC05Run(t, dir, p, mkUp, steps, false)
